@@ -22,8 +22,12 @@ CLAIMS = {
          'Exploration with a completely enumerated sub-space: every prefix over {Set, SetWithTTL, apply-one, Get} of length <= 4 on a key, then Del, every {apply-one, Get} suffix of length <= 2, then Wait and Gets, for two write-buffer sizes; plus random gated sequences with more Dels. Get must miss after Del;Wait until the next Set, and the deleted value must be passed to OnExit exactly once.', '5/C05'),
  'C06': ('reference-model monitor (map + explicit FIFO of pending writes) driven in lock-step with the applier, which is single-stepped through the vpApplierItem hook so that lag is an explicit integer; Wait early-return probe',
          'Exploration: thousands of random single-client sequences of Set/SetWithTTL/Del/Get/GetTTL/IterValues/Wait/Clear with "apply n items" steps in between; every Get/GetTTL/IterValues result and the white-box map contents must equal the model; Wait must not return before the items buffered ahead of its marker are applied.', '5/C06'),
+ 'C07': ('interval checker with sound wall-time brackets over scripted per-key histories (expiration lies in [t0+ttl, t1+ttl] with t0/t1 read around SetWithTTL); applier held by the gate hook for born-expired inserts; observers Get, GetTTL, IterValues; many caches in parallel',
+         'Exploration: an observation that started after the latest possible expiration must not yield the item, one that finished before the earliest possible expiration must yield it (ample capacity, control key), anything in between is counted as inconclusive band; GetTTL <= ttl, no expiry for ttl=0, negative ttl returns false / stores nothing / reaches no callback. Real time cannot be compressed: the number of bracketed observations is what the budget allows.', '5/C07'),
  'C08': ('Go race detector (halt_on_error=0, reports de-duplicated by outermost ristretto frame pair) + per-call recover + per-call watchdog with canary; the workload shares no monitor state between goroutines so no happens-before edges are added',
          'Exploration: 2..64 goroutines issue all 12 listed call kinds on one open cache over BufferItems/NumCounters/MaxCost/metrics/callbacks/TTL/write-buffer-size configurations with delay injection at hook points; any race report with a ristretto frame, any recovered panic, any death of a cache goroutine and any call pending > 60 s while the canary is healthy is a violation. "Bounded time" is decided in that restated form. Close is only called after the clients joined.', '5/C08'),
+ 'C09': ('online decision monitor: the verifSampled hook reports (incoming estimate, sample, chosen minimum) under the policy mutex and the monitor recomputes every estimate, the minimum and the expected branch independently, then matches OnEvict order / OnReject / accounting; plus a black-box layer valid for any sampling scheme',
+         'Exploration: thousands of decisions over resident populations 1..40, cost and frequency assignments (ties, zero, saturated), incoming classes {fits, fits exactly, exceeds by 1, needs k victims, larger than MaxCost, already resident}, each configuration repeated for different map iteration orders. The sample size is recorded, never asserted.', '5/C09'),
  'C10': ('differential reference-model monitor (map[uint64]uint64) over generated Set/DeleteBelow/IterateKV-rewrite/Reset histories, six page sizes, checkptr build',
          'Exploration: after every operation the touched keys, and periodically every key ever used plus the IterateKV multiset, are compared with a reference map; thresholds are tied to existing values so that leaf maxima are hit; histories cross node splits, page recycling and growth of the 1 MiB buffer.', '5/C10'),
  'C11': ('differential reference-model monitor ([]byte / [][]byte) over the four buffer kinds, sortedness + permutation oracle for the sorter, checkptr build',
